@@ -498,6 +498,17 @@ func (c *Ctx) runScript(ops []Op) []Outcome {
 		}
 		out.k64, out.kD, out.ko64, out.koD = nil, nil, nil, nil
 		outs[i] = out
+		if op.has("repeat-prev") && i > 0 && ops[i-1].K == op.K && ops[i-1].O == op.O && ob != nil && !ob.dead {
+			// the same call on the same object with the same arguments, into a
+			// fresh solution variable: an execute does not change what the
+			// object was given, so the answer must be the same
+			c.st.Judged["repeat/same-object-repeat/"+op.K]++
+			if !budgetEdge(&outs[i], &outs[i-1], c.budget) && !sameOutcome(&outs[i], &outs[i-1]) {
+				c.viol = append(c.viol, Violation{Class: "repeat", Task: c.task, OpIndex: i, OpKind: op.K, Pert: "same-object-repeat",
+					Symptom: symptomOf(&outs[i], &outs[i-1]), Detail: "the same execute on the same object with the same arguments returned something else the second time",
+					Expected: clipStr(outs[i-1].key()), Observed: clipStr(outs[i].key())})
+			}
+		}
 	}
 	class := "result-stability"
 	if c.judge {
